@@ -474,7 +474,7 @@ end frame
 /-! ### the two forest-level theorems -/
 
 /-- deleting ALL leaves below a ROOT `d`: the tree becomes an empty root, nothing else changes -/
-theorem del_root (cr : CR H) (F : Forest H) (hn : F.numLeaves < 2 ^ 64) (hy : Hyg F) {d : Pos}
+theorem del_root (nz : NZ H) (F : Forest H) (hn : F.numLeaves < 2 ^ 64) (hy : Hyg F) {d : Pos}
     (hroot : isRootPos F.numLeaves d = true) (R : List H)
     (hR : ∀ x, x ∈ R ↔ ∃ t, (t, x, true) ∈ F.nodes ∧ Anc d t) :
     ∀ e : Pos × H × Bool, e ∈ (F.delLeaves R).nodes ↔ (¬ Anc d e.1 ∧ e ∈ F.nodes) ∨ e = (d, zero, false) := by
@@ -509,7 +509,7 @@ theorem del_root (cr : CR H) (F : Forest H) (hn : F.numLeaves < 2 ^ 64) (hy : Hy
     · exact Or.inl he
 
 /-- `del_nonroot` with the conclusion packaged as `DelRel` -/
-theorem del_nonroot_rel (cr : CR H) (F : Forest H) (hn : F.numLeaves < 2 ^ 64) (hy : Hyg F) {d : Pos} {h : H} {b : Bool}
+theorem del_nonroot_rel (nz : NZ H) (F : Forest H) (hn : F.numLeaves < 2 ^ 64) (hy : Hyg F) {d : Pos} {h : H} {b : Bool}
     (hd : (d, h, b) ∈ F.nodes) (hnr : isRootPos F.numLeaves d = false) (R : List H)
     (hR : ∀ x, x ∈ R ↔ ∃ t, (t, x, true) ∈ F.nodes ∧ Anc d t) :
     DelRel d (fun e => e ∈ F.nodes) (fun e => e ∈ (F.delLeaves R).nodes) := by
@@ -571,7 +571,7 @@ theorem del_nonroot_rel (cr : CR H) (F : Forest H) (hn : F.numLeaves < 2 ^ 64) (
   (B) the subtree at `σ` is lifted onto `P` (`liftP σ`),
   (C) the strict ancestors of `P` keep their positions (as inner nodes, with new hashes),
   and nothing else exists. -/
-theorem del_nonroot (cr : CR H) (F : Forest H) (hn : F.numLeaves < 2 ^ 64) (hy : Hyg F) {d : Pos} {h : H} {b : Bool}
+theorem del_nonroot (nz : NZ H) (F : Forest H) (hn : F.numLeaves < 2 ^ 64) (hy : Hyg F) {d : Pos} {h : H} {b : Bool}
     (hd : (d, h, b) ∈ F.nodes) (hnr : isRootPos F.numLeaves d = false) (R : List H)
     (hR : ∀ x, x ∈ R ↔ ∃ t, (t, x, true) ∈ F.nodes ∧ Anc d t) :
     (∀ e : Pos × H × Bool, e ∈ (F.delLeaves R).nodes →
@@ -582,7 +582,7 @@ theorem del_nonroot (cr : CR H) (F : Forest H) (hn : F.numLeaves < 2 ^ 64) (hy :
     (∀ c h' b', Anc (sib d) c → (c, h', b') ∈ F.nodes → (liftP (sib d) c, h', b') ∈ (F.delLeaves R).nodes) ∧
     (∀ z h0, (z, h0, false) ∈ F.nodes → Anc z (parent d) → z ≠ parent d →
       ∃ h1, (z, h1, false) ∈ (F.delLeaves R).nodes) :=
-  del_nonroot_rel cr F hn hy hd hnr R hR
+  del_nonroot_rel nz F hn hy hd hnr R hR
 
 /-! ### non-vacuity: the forest `F5` of `Props/C09.lean` (five live leaves, term-algebra hash) -/
 
@@ -672,19 +672,19 @@ example : Hyg (F5.delLeaves [T.leaf 2]) ∧
   ⟨hyg_delLeaves F5_hyg _, by rw [liveLeaves_delLeaves]; decide⟩
 
 /-- `del_nonroot`: its hypotheses hold for the leaf `d = (0, 2)` of `F5` … -/
-example := del_nonroot crT F5 (by decide) F5_hyg (d := (0, 2)) (h := T.leaf 2) (b := true)
+example := del_nonroot crT.toNZ F5 (by decide) F5_hyg (d := (0, 2)) (h := T.leaf 2) (b := true)
   (by rw [F5_nodes]; decide) (by decide) [T.leaf 2] R2_spec
 
 /-- … and for the inner node `d = (1, 0)`; e.g. part (B) moves leaf 3 from `(0,3)` to `(1,1)` -/
 example : ((1, 1), T.leaf 3, true) ∈ (F5.delLeaves [T.leaf 0, T.leaf 1]).nodes :=
-  (del_nonroot crT F5 (by decide) F5_hyg (d := (1, 0)) (h := .node (.leaf 0) (.leaf 1)) (b := false)
+  (del_nonroot crT.toNZ F5 (by decide) F5_hyg (d := (1, 0)) (h := .node (.leaf 0) (.leaf 1)) (b := false)
     (by rw [F5_nodes]; decide) (by decide) [T.leaf 0, T.leaf 1] R10_spec).2.2.1 (0, 3) (.leaf 3) true
       (by decide) (by rw [F5_nodes]; decide)
 
 /-- `del_root`: its hypotheses hold for the root `d = (2, 0)` of `F5` -/
 example : ∀ e : Pos × T × Bool, e ∈ (F5.delLeaves [T.leaf 0, T.leaf 1, T.leaf 2, T.leaf 3]).nodes ↔
     (¬ Anc (2, 0) e.1 ∧ e ∈ F5.nodes) ∨ e = ((2, 0), T.z, false) :=
-  del_root crT F5 (by decide) F5_hyg (d := (2, 0)) (by decide) _ R20_spec
+  del_root crT.toNZ F5 (by decide) F5_hyg (d := (2, 0)) (by decide) _ R20_spec
 
 end Example
 
